@@ -71,10 +71,14 @@ EXTRA_PROPS = {
     "C01": ["P1", "ShexStage", "FreqLawsProps"],
     "C02": ["P1", "ShexStage", "FreqLawsProps"],
     "C03": ["ShexStage"],
-    "C05": ["C05refs"],
+    "C04": ["ShexStage"],
+    "C05": ["C05refs", "ShexStage"],
     "C08": ["C06Channels"],
-    "C09": ["P1"],
+    "C09": ["P1", "ShexStage"],
     "C12": ["FreqLawsProps"],
+    "C13": ["ShexStage"],
+    "C17": ["ShexStage"],
+    "C18": ["ShexStage"],
     "C14": ["ShexStage"],
     "C16": ["P1"],
 }
